@@ -258,10 +258,20 @@ impl World {
     }
 }
 
-fn abort(w: &Shared, mut g: std::sync::MutexGuard<'_, World>, why: String) -> ! {
-    g.aborted = Some(why.clone());
+/// End the run: the simulator's verdict is recorded in the world and the thread unwinds
+/// out of jawk. If the thread is unwinding already (jawk writes or reads from a destructor
+/// while an earlier abort or a panic of its own travels up), a second panic would kill the
+/// process: the call then fails with an ordinary I/O error instead, as every later call on
+/// an aborted world does.
+fn abort(w: &Shared, mut g: std::sync::MutexGuard<'_, World>, why: String) -> io::Error {
+    if g.aborted.is_none() {
+        g.aborted = Some(why.clone());
+    }
     drop(g);
     let _ = w;
+    if std::thread::panicking() {
+        return io::Error::new(io::ErrorKind::Other, "sim-aborted");
+    }
     std::panic::panic_any(SimAbort(why));
 }
 
@@ -273,6 +283,9 @@ pub struct SimSource {
 impl Read for SimSource {
     fn read(&mut self, buf: &mut [u8]) -> io::Result<usize> {
         let mut g = lock(&self.w);
+        if g.aborted.is_some() {
+            return Err(io::Error::new(io::ErrorKind::Other, "sim-aborted"));
+        }
         let which = self.which;
         g.cur_src = which as u8;
         macro_rules! src {
@@ -287,10 +300,10 @@ impl Read for SimSource {
             src!().fault_delivered = true;
             g.any_rfault = true;
             if src!().post_fault_calls > POST_FAULT_CALLS {
-                abort(&self.w, g, "read retried more than 64 times after a failure".into());
+                return Err(abort(&self.w, g, "read retried more than 64 times after a failure".into()));
             }
             if let Err(e) = g.push(Chan::Read, pos, asked, Res::Fail(ErrKind::Other)) {
-                abort(&self.w, g, e);
+                return Err(abort(&self.w, g, e));
             }
             return Err(ErrKind::Other.to_io());
         }
@@ -299,10 +312,10 @@ impl Read for SimSource {
                 if f.sticky {
                     src!().post_fault_calls += 1;
                     if src!().post_fault_calls > POST_FAULT_CALLS {
-                        abort(&self.w, g, "read retried more than 64 times after a failure".into());
+                        return Err(abort(&self.w, g, "read retried more than 64 times after a failure".into()));
                     }
                     if let Err(e) = g.push(Chan::Read, pos, asked, Res::Fail(f.kind)) {
-                        abort(&self.w, g, e);
+                        return Err(abort(&self.w, g, e));
                     }
                     return Err(f.kind.to_io());
                 }
@@ -310,7 +323,7 @@ impl Read for SimSource {
         }
         if asked == 0 {
             if let Err(e) = g.push(Chan::Read, pos, 0, Res::N(0)) {
-                abort(&self.w, g, e);
+                return Err(abort(&self.w, g, e));
             }
             return Ok(0);
         }
@@ -326,7 +339,7 @@ impl Read for SimSource {
         if intr {
             src!().intr_delivered += 1;
             if let Err(e) = g.push(Chan::Read, pos, asked, Res::Intr) {
-                abort(&self.w, g, e);
+                return Err(abort(&self.w, g, e));
             }
             return Err(io::Error::new(io::ErrorKind::Interrupted, "sim-eintr"));
         }
@@ -336,7 +349,7 @@ impl Read for SimSource {
                     src!().fault_delivered = true;
                     g.any_rfault = true;
                     if let Err(e) = g.push(Chan::Read, pos, asked, Res::Fail(f.kind)) {
-                        abort(&self.w, g, e);
+                        return Err(abort(&self.w, g, e));
                     }
                     return Err(f.kind.to_io());
                 }
@@ -346,11 +359,11 @@ impl Read for SimSource {
         if src!().pos + asked > src!().data.len() {
             if let Some(en) = src!().endless.clone() {
                 if src!().pos > src!().byte_budget {
-                    abort(
+                    return Err(abort(
                         &self.w,
                         g,
                         "endless source: byte budget exhausted (jawk keeps reading)".into(),
-                    );
+                    ));
                 }
                 // an endless producer always has data ready: fill the whole request
                 while src!().pos + asked > src!().data.len() {
@@ -371,7 +384,7 @@ impl Read for SimSource {
                 g.ok_reads_after_any_rfault += 1;
             }
             if let Err(e) = g.push(Chan::Read, pos, asked, Res::Eof) {
-                abort(&self.w, g, e);
+                return Err(abort(&self.w, g, e));
             }
             return Ok(0);
         }
@@ -411,7 +424,7 @@ impl Read for SimSource {
             g.ok_reads_after_any_rfault += 1;
         }
         if let Err(e) = g.push(Chan::Read, pos, asked, Res::N(n as u32)) {
-            abort(&self.w, g, e);
+            return Err(abort(&self.w, g, e));
         }
         Ok(n)
     }
@@ -436,6 +449,9 @@ impl Write for SimSink {
     fn write(&mut self, buf: &[u8]) -> io::Result<usize> {
         let chan = self.chan();
         let mut g = lock(&self.w);
+        if g.aborted.is_some() {
+            return Err(io::Error::new(io::ErrorKind::Other, "sim-aborted"));
+        }
         let asked = buf.len();
         let is_err = self.is_err;
         macro_rules! sink {
@@ -453,10 +469,10 @@ impl Write for SimSink {
             sink!().fault_delivered = true;
             sink!().post_fault_calls += 1;
             if sink!().post_fault_calls > POST_FAULT_CALLS {
-                abort(&self.w, g, "write retried more than 64 times after a failure".into());
+                return Err(abort(&self.w, g, "write retried more than 64 times after a failure".into()));
             }
             if let Err(e) = g.push(chan, pos, asked, Res::Fail(ErrKind::Other)) {
-                abort(&self.w, g, e);
+                return Err(abort(&self.w, g, e));
             }
             return Err(ErrKind::Other.to_io());
         }
@@ -465,10 +481,10 @@ impl Write for SimSink {
                 if f.sticky {
                     sink!().post_fault_calls += 1;
                     if sink!().post_fault_calls > POST_FAULT_CALLS {
-                        abort(&self.w, g, "write retried more than 64 times after a failure".into());
+                        return Err(abort(&self.w, g, "write retried more than 64 times after a failure".into()));
                     }
                     if let Err(e) = g.push(chan, pos, asked, Res::Fail(f.kind)) {
-                        abort(&self.w, g, e);
+                        return Err(abort(&self.w, g, e));
                     }
                     return Err(f.kind.to_io());
                 }
@@ -476,7 +492,7 @@ impl Write for SimSink {
         }
         if asked == 0 {
             if let Err(e) = g.push(chan, pos, 0, Res::N(0)) {
-                abort(&self.w, g, e);
+                return Err(abort(&self.w, g, e));
             }
             return Ok(0);
         }
@@ -491,7 +507,7 @@ impl Write for SimSink {
         if intr {
             sink!().intr_delivered += 1;
             if let Err(e) = g.push(chan, pos, asked, Res::Intr) {
-                abort(&self.w, g, e);
+                return Err(abort(&self.w, g, e));
             }
             return Err(io::Error::new(io::ErrorKind::Interrupted, "sim-eintr"));
         }
@@ -504,10 +520,10 @@ impl Write for SimSink {
             }
             sink!().post_fault_calls += 1;
             if sink!().post_fault_calls > POST_FAULT_CALLS {
-                abort(&self.w, g, "write retried more than 64 times after Ok(0)".into());
+                return Err(abort(&self.w, g, "write retried more than 64 times after Ok(0)".into()));
             }
             if let Err(e) = g.push(chan, pos, asked, Res::Zero) {
-                abort(&self.w, g, e);
+                return Err(abort(&self.w, g, e));
             }
             return Ok(0);
         }
@@ -517,7 +533,7 @@ impl Write for SimSink {
                     sink!().fault_delivered = true;
                     sink!().fault_offset = pos;
                     if let Err(e) = g.push(chan, pos, asked, Res::Fail(f.kind)) {
-                        abort(&self.w, g, e);
+                        return Err(abort(&self.w, g, e));
                     }
                     return Err(f.kind.to_io());
                 }
@@ -558,7 +574,7 @@ impl Write for SimSink {
         }
         sink!().data.extend_from_slice(&buf[..n]);
         if let Err(e) = g.push(chan, pos, asked, Res::N(n as u32)) {
-            abort(&self.w, g, e);
+            return Err(abort(&self.w, g, e));
         }
         Ok(n)
     }
@@ -570,6 +586,9 @@ impl Write for SimSink {
             Chan::FlushOut
         };
         let mut g = lock(&self.w);
+        if g.aborted.is_some() {
+            return Err(io::Error::new(io::ErrorKind::Other, "sim-aborted"));
+        }
         let is_err = self.is_err;
         let (pos, failed) = {
             let s = if is_err { &g.err } else { &g.out };
@@ -579,7 +598,7 @@ impl Write for SimSink {
             (s.data.len(), sticky_failed)
         };
         if let Err(e) = g.push(chan, pos, 0, Res::Done) {
-            abort(&self.w, g, e);
+            return Err(abort(&self.w, g, e));
         }
         if failed {
             return Err(ErrKind::Other.to_io());
@@ -777,7 +796,7 @@ pub fn open_file(w: &Shared, i: usize) -> io::Result<SimSource> {
     }
     if g.srcs[which].open_blocks {
         let _ = g.push(Chan::Open, 0, 0, Res::Fail(ErrKind::WouldBlock));
-        abort(w, g, "an input was opened whose open never returns (a FIFO nobody writes to)".into());
+        return Err(abort(w, g, "an input was opened whose open never returns (a FIFO nobody writes to)".into()));
     }
     if let Some(k) = g.srcs[which].open_fails {
         g.srcs[which].fault_delivered = true;
